@@ -220,6 +220,20 @@ func (s *Sess) Put(b, k string, body []byte, m []KV) Resp {
 	return r
 }
 
+// PutWithHeaders: metadata m is what the model tracks; hdr are all headers actually sent
+func (s *Sess) PutWithHeaders(b, k string, body []byte, m []KV, hdr []KV) Resp {
+	var hh [][2]string
+	for _, kv := range hdr {
+		hh = append(hh, [2]string{kv.K, kv.V})
+	}
+	if body == nil {
+		body = []byte{}
+	}
+	r := do(s.h, Req{Method: "PUT", Path: "/" + pathEscape(b) + "/" + pathEscape(k), Body: body, Header: hh})
+	s.emitOp("put", []string{hs(b), hs(k), hx(body), metaArg(m)}, obsT{r: r})
+	return r
+}
+
 func vq(vid string) string {
 	if vid == "" {
 		return ""
